@@ -16,6 +16,8 @@ from .core import Explorer, PathStats, jsonable
 
 VERIF = os.path.dirname(os.path.dirname(os.path.abspath(__file__)))
 REPO = os.environ.get("SOLVOR_REPO", "/repo")
+# mutation sweeps (tools/regress.sh) write their evidence/replays elsewhere so that the committed evidence stays the unchanged tree's
+OUT = os.environ.get("VERIF_OUT") or VERIF
 
 EXIT_OK, EXIT_VIOLATION, EXIT_HARNESS = 0, 1, 3
 
@@ -40,7 +42,8 @@ def _worker(args):
                       path_wall_s=item.get("path_wall_s", opts["path_wall"]),
                       max_paths=item.get("max_paths", opts.get("max_paths")),
                       wall_s=item.get("wall_s", opts.get("item_wall")),
-                      validate=item.get("validate", True), tol=item.get("tol", 1e-6), extra_witness=item.get("extra_witness", False))
+                      validate=item.get("validate", True), tol=item.get("tol", 1e-6), extra_witness=item.get("extra_witness", False),
+                      spread=item.get("spread"))
         st = ex.run(initial_prefix=item.get("prefix"))
         st.item = item
         st.error = None
@@ -173,14 +176,14 @@ def run_check(modname, tier, seed, replay=None):
     replay_paths = []
     if violations:
         status = EXIT_VIOLATION
-        os.makedirs(os.path.join(VERIF, "replays"), exist_ok=True)
+        os.makedirs(os.path.join(OUT, "replays"), exist_ok=True)
         seen_labels = {}
         for v in violations:
             seen_labels.setdefault((v["label"], json.dumps(jsonable(v["params"]), sort_keys=True)), v)
         for k, v in list(seen_labels.items())[:5]:
             name = "%s_%s_%s.json" % (pid, "".join(ch if ch.isalnum() else "_" for ch in v["label"])[:40],
                                       hashlib.sha1(json.dumps(jsonable(v), sort_keys=True).encode()).hexdigest()[:8])
-            path = os.path.join(VERIF, "replays", name)
+            path = os.path.join(OUT, "replays", name)
             with open(path, "w") as f:
                 json.dump({"property": pid, "module": modname, "harness": _harness_of(items, v), "params": v["params"],
                            "assignment": jsonable(v["assignment"]), "label": v["label"],
@@ -269,8 +272,8 @@ def run_check(modname, tier, seed, replay=None):
             "explanation": getattr(mod, "EXPLANATION", ""),
         },
     }
-    os.makedirs(os.path.join(VERIF, "evidence"), exist_ok=True)
-    with open(os.path.join(VERIF, "evidence", pid + ".json"), "w") as f:
+    os.makedirs(os.path.join(OUT, "evidence"), exist_ok=True)
+    with open(os.path.join(OUT, "evidence", pid + ".json"), "w") as f:
         json.dump(ev, f, indent=1)
     print("%s tier=%s items=%d paths=%d pruned=%d decisions=%d queries=%d obligations=%d proved=%d unknown=%d "
           "validated=%d unreproduced=%d inconclusive=%d exhaustive=%s solver=%.1fs wall=%.1fs" % (
